@@ -319,8 +319,9 @@ Print Assumptions xmr_b58_decode_errors_linked.
 (* the address decoder: an accepted address string is THE canonical block-Base58 spelling of a byte string (an
    address has no second spelling), and acceptance is a property of the decoded bytes.  Stated through the
    decoder's first step only, so that it is independent of the checks performed on the bytes afterwards (the exact
-   condition on the bytes, and ValueError as the only refusal of the whole decoder, are proved in
-   Lemmas/LinkXmrAddr.v against the present body of Model/AddrXmr.v, which is under revision) *)
+   condition on the bytes, and ValueError as the only refusal of the whole decoder, follow below:
+   [address_decoder_accepts_iff_bytes], [address_decoder_errors_value], Lemmas/LinkXmrAddr.v, re-proved against the
+   body of Model/AddrXmr.v as revised after the repair of finding C10-XMR-INTEG-LEN) *)
 Theorem address_accepted_is_canonical : forall o addr net payid r, decode_addr o addr net payid = Ok r ->
   exists dec, bytes_ok dec /\ b58x_decode addr = Ok dec /\ b58x_encode dec = addr.
 Proof. intros o. exact (LinkXmr.decode_addr_canonical (keccak o) (G o) (pdec o)). Qed.
@@ -331,3 +332,32 @@ Theorem address_decoder_accepts_iff_canonical : forall o addr net payid r,
   exists dec, bytes_ok dec /\ b58x_encode dec = addr /\ decode_addr o (b58x_encode dec) net payid = Ok r.
 Proof. intros o. exact (LinkXmr.decode_addr_accepts_iff_canonical (keccak o) (G o) (pdec o)). Qed.
 Print Assumptions address_decoder_accepts_iff_canonical.
+
+(* the exact acceptance condition on the decoded bytes: Keccak checksum, net prefix, then -- without an expected
+   payment id -- 64 bytes, or -- with one -- an 8-byte id, 72 bytes ending in that id; both keys valid.
+   An address has exactly one spelling: the canonical block-Base58 text of such a byte string. *)
+From BU Require Lemmas.LinkXmrAddr Lemmas.AddrAcceptXmrLink.
+Theorem address_decoder_accepts_iff_bytes : forall o addr net payid r,
+  decode_addr o addr net payid = Ok r <->
+  exists dec, bytes_ok dec /\ b58x_encode dec = addr /\
+    LinkXmrAddr.addr_bytes_accepted (keccak o) (G o) (pdec o) dec net payid r.
+Proof. intros o. exact (LinkXmrAddr.decode_addr_accepts_iff (keccak o) (G o) (pdec o)). Qed.
+Print Assumptions address_decoder_accepts_iff_bytes.
+
+(* the whole address decoder refuses with ValueError only (the fuel artefact of Model/XmrB58.v is unreachable) *)
+Theorem address_decoder_errors_value : forall o addr net payid e,
+  decode_addr o addr net payid = Err e -> e = ValueError.
+Proof. intros o. exact (LinkXmrAddr.decode_addr_err_value (keccak o) (G o) (pdec o)). Qed.
+Print Assumptions address_decoder_errors_value.
+
+(* ... and exactly the address encoder's outputs are accepted (XmrAddrEncoder for payid = None,
+   XmrIntegratedAddrEncoder for payid = Some p): Props/C10.v xmr_addr_decode_accepts_iff_encoder, here over a back-end *)
+Theorem address_decoder_accepts_iff_encoder : forall o,
+  (forall x, length (keccak o x) = 32%nat) -> (forall x, bytes_ok (keccak o x)) ->
+  forall addr net payid r, bytes_ok net -> (match payid with Some p => bytes_ok p | None => True end) ->
+  (decode_addr o addr net payid = Ok r <->
+   exists ps pv, r = ps ++ pv /\ length ps = 32%nat /\ length pv = 32%nat /\ bytes_ok ps /\ bytes_ok pv /\
+                 pub_is_valid (G o) (pdec o) ps = true /\ pub_is_valid (G o) (pdec o) pv = true /\
+                 encode_key o ps pv net payid = Ok addr).
+Proof. intros o H1 H2. exact (AddrAcceptXmrLink.decode_addr_accepts_iff_encoder (keccak o) (G o) (pdec o) H1 H2). Qed.
+Print Assumptions address_decoder_accepts_iff_encoder.
